@@ -151,7 +151,11 @@ OnStart(m, e) ==
             ELSE {V(m, e, "C01", "started before the functions it depends on finished successfully")}
                  \cup (IF u.kind = "task" /\ u.pred # 0 /\ St(m, u.pred) # "true"
                        THEN {V(m, e, "C11", "task invoked although its predicate did not return true")} ELSE {})
-                 \cup (IF u.kind \in {"send", "mend"} THEN {V(m, e, "C10", "End hook ran before every element call returned ok")} ELSE {}))
+                 \cup (IF u.kind \in {"send", "mend"} THEN {V(m, e, "C10", "End hook ran before every element call returned ok")} ELSE {})
+                 \* a flow function invoked before the provider of one of its parameters has returned cannot have been
+                 \* passed the value that provider returned
+                 \cup (IF u.kind \in {"task", "pred"} /\ \E k \in DOMAIN u.ins : ~Provided(m, u.ins[k])
+                       THEN {V(m, e, dataprop, "invoked before the provider of one of its parameters had returned a value")} ELSE {}))
       \cup (IF ~UpstreamFailed(m, i) THEN {}
             ELSE {V(m, e, IF m.coe THEN "C08" ELSE "C07", "function downstream of a failure was invoked")})
       \cup (IF ~DepsOK(m, i) \/ e.toks = ExpectedToks(m, i) THEN {}
